@@ -154,12 +154,18 @@ def judge(ctx, path, bad, T, stale_defect=False):
     """Harness results -> verdicts. `viol` rows are verdict-bearing (re-run once from scratch);
     `diverged` / `hang` / `inconclusive` rows are counted and make the run inconclusive."""
     soft = []
+    seen = {}
     for b in bad:
         hist = load_hist(path, b["i"])
         if b["r"] != "viol":
             soft.append("%s: %s" % (b["r"], (b.get("note") or "")[:300]))
             continue
         v = b["v"]
+        # at most two reproductions per structural signature, eight per file (each is a fresh go test)
+        key = (v["kind"], v["sig"], bool(b.get("tainted")) and stale_defect)
+        seen[key] = seen.get(key, 0) + 1
+        if seen[key] > 2 or sum(min(n, 2) for n in seen.values()) > 8 or len(ctx.violations) >= 8:
+            continue
         rep = {"history": hist[: v.get("step", len(hist)) + 1], "script": slim(hist[: v.get("step", len(hist)) + 1]),
                "conc": b.get("conc"), "violation": v, "T": T, "tainted": b.get("tainted"),
                "cmd": "python3 tools/verif.py replay C07 <this file>"}
@@ -278,12 +284,12 @@ def run(ctx):
     bfs_ks = '{{"Ai","Ad","Bi","Bd","F"}, {"Ai","Bi"}, {"Ad","Bi","Bd"}, {"Ai","X"}}'
     runs.append(("bfs", dict(spec="GSpecBFS", nodes=2, groups=["A", "B"], T=1, depth=4, maxlen=2, maxid=2, writers=1, inv="Emit",
                              bfs_keysets=bfs_ks, sync_partial_ok=sync_partial_ok), None, 250 if not thorough else 4000))
-    n_sim = 20 if not thorough else 160
+    n_sim = 20 if not thorough else 240
     runs.append(("sim", dict(spec="GSpecSim", nodes=3, groups=["A", "B"], T=4, depth=12, maxlen=3, maxid=9, writers=2,
                              sync_partial_ok=sync_partial_ok), "num=%d" % n_sim, None))
     for plan in (1, 2, 3, 4):
         runs.append(("plan%d" % plan, dict(spec="GSpecSim", nodes=3, groups=["A", "B"], T=4, depth=14, maxlen=3, maxid=9, writers=2,
-                                           plan=plan, sync_partial_ok=sync_partial_ok), "num=%d" % (6 if not thorough else 50), None))
+                                           plan=plan, sync_partial_ok=sync_partial_ok), "num=%d" % (6 if not thorough else 70), None))
     if thorough:
         runs.append(("sim3g", dict(spec="GSpecSim", nodes=3, groups=["A", "B", "C"], T=3, depth=12, maxlen=2, maxid=8, writers=2,
                                    sync_partial_ok=sync_partial_ok), "num=60", None))
